@@ -599,6 +599,8 @@ func c16syncVsReads(c *fw.Ctx) {
 	c.Count("reader_runs_beside_a_syncing_goroutine", 1)
 }
 
+var c16hashedInHandlers int64
+
 func c16readers(c *fw.Ctx) {
 	if c.Idx%8 == 5 {
 		c16lostRoot(c)
@@ -670,6 +672,20 @@ func c16readers(c *fw.Ctx) {
 				}
 				switch rr.Intn(6) {
 				case 0:
+					if i%2 == 0 {
+						// a traversal whose handler hashes every node it is handed (what a state sync does): keys and hashes agree,
+						// and hashing is a read - two traversals may hash the same node object at the same time
+						_ = shared.Iterate(context.Background(), func(ctx context.Context, path util.Path, key util.Key, node util.Node) error {
+							if node != nil && len(key) > 0 {
+								if h := node.GetHashBytes(); !bytes.Equal(h, key) {
+									bad.Store(fmt.Sprintf("Iterate hands out node %x under key %x", h, key))
+								}
+								atomic.AddInt64(&c16hashedInHandlers, 1)
+							}
+							return nil
+						}, util.NodeTypeLeafNode|util.NodeTypeFullNode|util.NodeTypeExtensionNode)
+						break
+					}
 					_, _ = lab.IterAll(shared)
 				case 1:
 					hm, err := shared.HasMissingNodes(context.Background())
@@ -752,6 +768,7 @@ func c16readers(c *fw.Ctx) {
 		c.Violate("", "%d readers, %d writers of fresh paths, %d of %d nodes absent from the store: %s", G, W, removed, len(nodes), b.(string))
 	}
 	c.Count("reader_runs", 1)
+	c.Count("nodes_hashed_in_concurrent_iterate_handlers", atomic.SwapInt64(&c16hashedInHandlers, 0))
 	if removed > 0 {
 		c.Count("reader_runs_with_missing_nodes", 1)
 	}
@@ -850,7 +867,7 @@ func init() {
 			"non-trivial = history with at least one update overlapping another goroutine's operation; distinct by (scripts, overlap count)",
 		Cases: func(tier string) int { h, r, e := c16layout(tier); return h + r + e },
 		Run:   runC16,
-		Floors: map[string]int64{"histories": 4500, "linearizable": 4500, "operations": 80000, "overlapping_pairs": 20000, "histories_with_overlapping_updates": 2000, "reader_runs": 550, "reader_runs_on_a_lost_root": 80, "reader_runs_beside_a_syncing_goroutine": 80, "reader_runs_with_writers": 280, "reader_runs_with_missing_nodes": 420, "final_saves_checked": 4500, "histories_with_committed_node_cache": 1500, "histories_on_a_reopened_trie": 800, "histories_with_merges": 800, "merges_accepted": 500, "merges_rejected": 100, "reader_runs_with_committed_node_cache": 50, "expired_save_runs": 1500,
+		Floors: map[string]int64{"nodes_hashed_in_concurrent_iterate_handlers": 100000, "histories": 4500, "linearizable": 4500, "operations": 80000, "overlapping_pairs": 20000, "histories_with_overlapping_updates": 2000, "reader_runs": 550, "reader_runs_on_a_lost_root": 80, "reader_runs_beside_a_syncing_goroutine": 80, "reader_runs_with_writers": 280, "reader_runs_with_missing_nodes": 420, "final_saves_checked": 4500, "histories_with_committed_node_cache": 1500, "histories_on_a_reopened_trie": 800, "histories_with_merges": 800, "merges_accepted": 500, "merges_rejected": 100, "reader_runs_with_committed_node_cache": 50, "expired_save_runs": 1500,
 			"gomaxprocs:1": 100, "gomaxprocs:16": 100},
 		Assumptions: []string{
 			"histories are small (<= 6 x 11 operations) and numerous; a porcupine timeout (30 s) would be inconclusive, never a violation",
